@@ -1317,6 +1317,9 @@ func (c *codegen) Visit(node ast.Node) ast.Visitor {
 				return nil
 			}
 			if isString(typ) {
+				if len(n.Args) == 1 && !isString(c.typeOf(n.Args[0])) {
+					c.emitNilToEmptyBytes()
+				}
 				c.emitConvert(stackitem.ByteArrayT)
 			} else if arrType, ok := typ.Underlying().(*types.Array); ok {
 				// A conversion via a named array type, e.g. type Arr4 [4]int; Arr4(x).
@@ -1793,8 +1796,18 @@ func (c *codegen) emitExplicitConvert(from, to types.Type) {
 	} else if isByteSliceOrArray(to) && !isByteSliceOrArray(from) {
 		c.emitConvert(stackitem.BufferT)
 	} else if isString(to) && !isString(from) {
+		c.emitNilToEmptyBytes()
 		c.emitConvert(stackitem.ByteArrayT)
 	}
+}
+
+// emitNilToEmptyBytes replaces Null on top of the stack (nil byte slice) with
+// an empty byte string, any other item is left as is: string(b) of a nil b
+// is an empty string.
+func (c *codegen) emitNilToEmptyBytes() {
+	emit.Opcodes(c.prog.BinWriter, opcode.DUP, opcode.ISNULL)
+	emit.Instruction(c.prog.BinWriter, opcode.JMPIFNOT, []byte{2 + 3})
+	emit.Opcodes(c.prog.BinWriter, opcode.DROP, opcode.PUSHDATA1, 0)
 }
 
 func (c *codegen) isInvalidType(typ types.Type) bool {
